@@ -31,13 +31,49 @@ func (graphScen) Decode(raw json.RawMessage) (any, error) {
 	return &c, err
 }
 func (graphScen) Rule(string) string {
-	return "case = a dependency graph over n <= 4 tasks drawn from all edge sets (self-loops included; half of the runs sparse so that DAGs are common) or a sparse graph up to 8 tasks (chains, diamonds, cycle next to an independent task), a request list (any non-empty subset in random order, sometimes with repeats or an undefined name), sometimes a task defined twice or an undefined depended-on name, half the runs with one failing command, 30% with file dependencies and a second run so that skipped tasks occur; the dag iteration order is drawn from the simulator's PRNG. distinct_nontrivial = distinct (edge set, request, observed execution order) triples."
+	return "the first 3634 run indices enumerate EVERY (edge set incl. self-loops, non-empty request subset) for n <= 3 tasks (request order, definition order and dag order still drawn from the PRNG); after that: case = a dependency graph over n <= 4 tasks drawn from all edge sets (self-loops included; half of the runs sparse so that DAGs are common) or a sparse graph up to 8 tasks (chains, diamonds, cycle next to an independent task), a request list (any non-empty subset in random order, sometimes with repeats or an undefined name), sometimes a task defined twice or an undefined depended-on name, half the runs with one failing command, 30% with file dependencies and a second run so that skipped tasks occur; the dag iteration order is drawn from the simulator's PRNG. distinct_nontrivial = distinct (edge set, request, observed execution order) triples."
 }
 
 var grNames = []string{"AAAAAA", "BBBBBB", "CCCCCC", "DDDDDD", "EEEEEE", "FFFFFF", "GGGGGG", "HHHHHH"}
 
+// grSystematic maps the first run indices onto every (graph, request subset) with n <= 3 tasks:
+// n=1: 2 edge sets x 1 subset, n=2: 16 x 3, n=3: 512 x 7  (3634 cells); the dag order, flags and
+// request order are still drawn from the PRNG, so further seeds revisit the cells with other orders.
+const grSystematicCells = 2*1 + 16*3 + 512*7
+
+func grCell(idx int) (n, mask, sub int) {
+	for n = 1; n <= 3; n++ {
+		cells := (1 << (n * n)) * ((1 << n) - 1)
+		if idx < cells {
+			return n, idx / ((1 << n) - 1), idx%((1<<n)-1) + 1
+		}
+		idx -= cells
+	}
+	return 0, 0, 0
+}
+
 func (graphScen) Gen(r *Rng, cfg GenConfig) any {
 	c := &GraphCase{Sched: genSched(r), Runs: 1, JSON: r.Chance(2, 3), Disk: map[string]string{}}
+	if int(cfg.Idx) < grSystematicCells {
+		n, mask, sub := grCell(int(cfg.Idx))
+		for i := 0; i < n; i++ {
+			t := TaskDef{Name: grNames[i], NCmd: 1}
+			for d := 0; d < n; d++ {
+				if mask&(1<<(d*n+i)) != 0 {
+					t.Deps = append(t.Deps, Dep{"task", grNames[d]})
+				}
+			}
+			c.Prog.Tasks = append(c.Prog.Tasks, t)
+		}
+		c.Prog.Tasks = Shuffled(r, c.Prog.Tasks)
+		for i := 0; i < n; i++ {
+			if sub&(1<<i) != 0 {
+				c.Request = append(c.Request, grNames[i])
+			}
+		}
+		c.Request = Shuffled(r, c.Request)
+		return c
+	}
 	var n int
 	edges := map[[2]int]bool{} // [d,t]: t depends on d
 	switch k := r.Intn(10); {
@@ -227,6 +263,11 @@ func (graphScen) Exec(w *World, cc any, prop string) *Result {
 			return res
 		}
 		res.distinct(fmt.Sprintf("%s|%v|%v", edgeKey, c.Request, v.order))
+		if len(c.Prog.Tasks) <= 3 && len(c.Fail) == 0 && c.Runs == 1 {
+			rq := append([]string{}, c.Request...)
+			sort.Strings(rq)
+			res.distinct(fmt.Sprintf("cell:%s|%v", edgeKey, rq))
+		}
 		if len(obs.Perms) > 0 {
 			res.count("probe:dag_permutation_drawn")
 		}
